@@ -28,7 +28,7 @@ DEFAULTS = dict(flavor='OMPI', rf=False, hf=False, can_os=False, oversub=False, 
                 exact=False, tpc=1, reqgpus=False, cpn=64, gpn=0, local=7, tpn=0, nodes=[], dvm=True,
                 cheyenne=False)
 TDEF = dict(slots=[], rs=[], ranks=1, cpr=1, gpr=0, mpi=True, exe=True, mem=0, skipgpu=False, omp=False,
-            cuda=False)
+            cuda=False, wfail=False)
 
 
 def opts(case):
@@ -79,9 +79,9 @@ def task_lit(t):
                    for s in t['slots']])
     rs = L.lst(['(Build_rset %s %s %s)' % (L.Z(r[0]), L.lst([L.zlist(x) for x in r[1]]),
                                            L.lst([L.zlist(x) for x in r[2]])) for r in t['rs']])
-    return '(Build_task %s %s %s %s %s %s %s %s %s %s %s)' % (
+    return '(Build_task %s %s %s %s %s %s %s %s %s %s %s %s)' % (
         slots, rs, L.Z(t['ranks']), L.Z(t['cpr']), L.Z(t['gpr']), b(t['mpi']), b(t['exe']), L.Z(t['mem']),
-        b(t['skipgpu']), b(t['omp']), b(t['cuda']))
+        b(t['skipgpu']), b(t['omp']), b(t['cuda']), b(t['wfail']))
 
 
 # ------------------------------------------------------------------------------
@@ -111,6 +111,8 @@ def file_lit(f):
     if f is None:
         return 'None'
     k = f[0]
+    if k == 'FMissing':
+        return '(Some FMissing)'
     if k in ('FHosts', 'FNodes'):
         return '(Some (%s %s))' % (k, L.zlist(f[1]))
     if k == 'FHostN':
@@ -136,6 +138,8 @@ def can_lit(c):
 
 
 def errkind(e):
+    if isinstance(e, OSError):
+        return 'EOs'
     return {ValueError: 'EValue', RuntimeError: 'ERuntime', AssertionError: 'EAssert'}.get(type(e), 'ECrash')
 
 
@@ -286,6 +290,8 @@ def parse_cmd(lm, cmd, sbox, uid):
         else:
             out.append(['A', t])
         i += 1
+    if fname and not os.path.exists(fname):
+        return out, ['FMissing']
     return out, (parse_file(fname) if fname else None)
 
 
@@ -436,6 +442,10 @@ class C09(Prop):
                  mpi=(rng.random() < 0.7) if lm not in ('FORK', 'SSH', 'RSH') else (rng.random() < 0.15),
                  exe=rng.random() < 0.95, mem=rng.choice([0, 0, 0, 1024]), skipgpu=rng.random() < 0.1,
                  omp=rng.random() < 0.5, cuda=rng.random() < 0.5)
+        # fault injection: the sandbox cannot be written (matters where a host/rank/node/ERF file is written)
+        pw = 0.3 if big else 0.12 if lm in ('MPIRUN', 'MPIEXEC', 'SRUN', 'JSRUN') else 0.03
+        if rng.random() < pw:
+            t['wfail'] = True
         if lm == 'JSRUN':
             # old-style slots: one resource set per (node, group of ranks)
             rs = []
@@ -461,6 +471,33 @@ class C09(Prop):
         return t
 
     def cases(self, rng, tier):
+        # every file-writing launcher and flavour around its threshold, with and without a write failure
+        def uniform(nr, nn):
+            return [[1 + i % nn, 1 + i % nn, [i // nn], []] for i in range(nr)]
+        for name in ('MPIRUN', 'MPIRUN_MPT', 'MPIRUN_RSH', 'MPIRUN_CCMRUN', 'MPIRUN_DPLACE', 'mpirun_dplace'):
+            for chey in (False, True):
+                for nr in (42, 43, rng.randint(44, 60)):
+                    for wf in (False, True):
+                        if chey and name != 'MPIRUN' and nr != 43:
+                            continue
+                        yield {'name': name, 'o': {'cheyenne': chey}, 'fam': rng.choice(FAMS),
+                               'tasks': [dict(slots=uniform(nr, rng.choice([1, 7, nr])), ranks=nr, wfail=wf)]}
+        for name in ('MPIEXEC', 'MPIEXEC_MPT'):
+            for o in ({'rf': True}, {'hf': True}, {}, {'flavor': 'PALS'}):
+                for nr in (2, 43):
+                    nn = rng.choice([1, nr])
+                    yield {'name': name, 'o': o, 'fam': rng.choice(FAMS),
+                           'tasks': [dict(slots=uniform(nr, nn), ranks=nr, wfail=True),
+                                     dict(slots=uniform(nr, nn), ranks=nr)]}
+        for vm in (18, 19, 23):
+            for nn in (42, 43, 50):
+                for wf in (False, True):
+                    nr = nn + rng.randint(0, 9)
+                    yield {'name': 'SRUN', 'o': {'vmajor': vm}, 'fam': rng.choice(FAMS),
+                           'tasks': [dict(slots=uniform(nr, nn), ranks=nr, wfail=wf)]}
+        for wf in (False, True):
+            yield {'name': 'JSRUN_ERF', 'o': {}, 'fam': 'A',
+                   'tasks': [dict(rs=[[1, [[0, 1], [2, 3]], []], [2, [[0, 1]], []]], ranks=3, cpr=2, wfail=wf)]}
         n = 640 if tier == 'quick' else 12000
         names = sorted(NAMES)
         weights = {'MPIRUN': 3, 'MPIEXEC': 4, 'SRUN': 3, 'mpirun_dplace': 2, 'PRTE': 2, 'JSRUN_ERF': 2}
@@ -510,7 +547,9 @@ class C09(Prop):
         # names that are equal / prefixes of one another / short vs fully qualified / localhost
         orders = [['FORK', 'SSH'], ['FORK', 'MPIRUN'], ['FORK', 'RSH'], ['FORK', 'SRUN'], ['FORK', 'MPIEXEC'],
                   ['FORK', 'PRTE'], ['SSH', 'FORK'], ['FORK', 'SSH', 'MPIRUN'], ['MPIRUN_MPT', 'FORK'],
-                  ['FORK'], ['RSH', 'SSH', 'FORK'], ['FORK', 'MPIEXEC_MPT']]
+                  ['FORK'], ['RSH', 'SSH', 'FORK'], ['FORK', 'MPIEXEC_MPT'], ['FORK', 'MPIRUN_MPT'],
+                  ['SSH', 'MPIRUN_MPT'], ['FORK', 'MPIRUN_DPLACE'], ['MPIRUN_RSH'], ['RSH', 'MPIRUN_CCMRUN'],
+                  ['SSH', 'SRUN']]
         for k in range(220 if tier == 'quick' else 4000):
             order = orders[k % len(orders)]
             fam = FAMS[(k // len(orders)) % len(FAMS)]
@@ -525,7 +564,13 @@ class C09(Prop):
                 o['vmajor'] = rng.choice([18, 20])
             tasks = []
             for _ in range(rng.choice([1, 1, 2, 3])):
-                if rng.random() < 0.78:
+                if rng.random() < 0.15:
+                    # above the host-file / node-file thresholds, sandbox writable or not
+                    nr = rng.randint(43, 60)
+                    nn = rng.choice([1, 5, nr])
+                    tasks.append(dict(slots=[[1 + i % nn, 1 + i % nn, [i // nn], []] for i in range(nr)],
+                                      ranks=nr, cpr=1, mpi=True, wfail=rng.random() < 0.4))
+                elif rng.random() < 0.78:
                     r2 = rng.random()
                     node = (local if r2 < 0.25 else 0 if r2 < 0.35 else partner(local) if r2 < 0.75
                             else rng.randint(1, 60))
@@ -535,7 +580,8 @@ class C09(Prop):
                     nr = rng.randint(2, 6)
                     pool_ = [local, partner(local), rng.randint(1, 60)]
                     slots = [[n_, n_, [i], []] for i, n_ in enumerate(rng.choice(pool_) for _ in range(nr))]
-                    tasks.append(dict(slots=slots, ranks=nr, cpr=1, mpi=rng.random() < 0.7))
+                    tasks.append(dict(slots=slots, ranks=nr, cpr=1, mpi=rng.random() < 0.7,
+                                      wfail=rng.random() < 0.1))
             yield {'order': order, 'o': o, 'fam': fam, 'tasks': tasks}
         if tier == 'thorough':
             # small-scope exhaustive: all assignments of <= 4 ranks to 2 nodes for the node-naming methods
@@ -650,6 +696,12 @@ class C09(Prop):
               'mem_per_rank': t['mem'], 'metadata': {'lm_skip_gpus': True} if t['skipgpu'] else {},
               'threading_type': 'OpenMP' if t['omp'] else '', 'gpu_type': 'CUDA' if t['cuda'] else '',
               'environment': {}}
+        if t['wfail']:
+            # fault injection: a task sandbox below a regular file cannot be written (works as root, too)
+            blocker = os.path.join(sbox, 'blocker')
+            if not os.path.exists(blocker):
+                open(blocker, 'w').close()
+            sbox = os.path.join(blocker, 'sandbox')
         return {'uid': uid, 'slots': slots, 'partition': 0, 'description': td, 'task_sandbox_path': sbox,
                 'stdout_file_short': 'out', 'stderr_file_short': 'err'}
 
@@ -675,7 +727,7 @@ class C09(Prop):
         cmds = [l[2:-2] for l in m.group(1).split('\n') if l]
         if len(cmds) != 1:
             raise ValueError('%d launch commands' % len(cmds))
-        argv, f = parse_cmd(lm, cmds[0], sbox, task['uid'])
+        argv, f = parse_cmd(lm, cmds[0], task['task_sandbox_path'], task['uid'])
         return can, {'argv': argv, 'file': f}
 
     def _select(self, case, rm, task, sbox):
@@ -722,7 +774,8 @@ class C09(Prop):
                 finst, frm = self._make(case)
                 ftask = self._taskdict(case, t, 'task.%06d' % k, sbox)
                 for fn in os.listdir(sbox):
-                    os.unlink(os.path.join(sbox, fn))
+                    if fn.startswith('task.'):
+                        os.unlink(os.path.join(sbox, fn))
                 _, fresh = self._launch(case, finst, frm, ftask, sbox)
                 out.append({'can': can, 'seq': seq, 'fresh': fresh})
             return {'calls': out}
@@ -843,6 +896,7 @@ class C09(Prop):
     def distribution(self, results):
         names, ranks, nodes, errs, refused, big = {}, [], [], 0, 0, 0
         sel = {'first': 0, 'later': 0, 'none': 0, 'raised': 0}
+        wfail = 0
         for r in results:
             nm = r['case'].get('name') or 'order:' + ','.join(r['case']['order'])
             names[nm] = names.get(nm, 0) + 1
@@ -857,6 +911,7 @@ class C09(Prop):
                 ranks.append(len(hs))
                 nodes.append(len(set(hs)))
                 big += len(hs) > 42
+                wfail += bool(t['wfail'])
             for c in (r['obs'] or {}).get('calls', []):
                 if 'seq' in c:
                     errs += 'err' in c['seq']
@@ -864,7 +919,7 @@ class C09(Prop):
         return dict(instance_names=names, tasks=len(ranks), mean_ranks=round(sum(ranks) / max(1, len(ranks)), 2),
                     max_ranks=max(ranks or [0]), mean_nodes=round(sum(nodes) / max(1, len(nodes)), 2),
                     max_nodes=max(nodes or [0]), tasks_over_42_ranks=big, calls_raising=errs,
-                    find_launcher_selections=sel,
+                    find_launcher_selections=sel, tasks_with_unwritable_sandbox=wfail,
                     calls_refused_by_can_launch=refused)
 
 
